@@ -63,3 +63,77 @@ def _aicao(pm, v):
 @reg("allcall.icao")
 def _acicao(pm, v):
     return enc.res(pm.allcall.icao(hx(v)))
+
+
+# ---- C07 / C08 ----
+def _bits13(v):
+    return format(v["code"], "013b")
+
+
+@reg("common.altitude")
+def _c_alt(pm, v):
+    return enc.res(pm.common.altitude(_bits13(v)))
+
+
+@reg("common.altcode")
+def _c_altcode(pm, v):
+    return enc.res(pm.common.altcode(hx(v)))
+
+
+@reg("surv.altitude")
+def _s_alt(pm, v):
+    return enc.res(pm.surv.altitude(hx(v)))
+
+
+@reg("adsb.altitude")
+def _a_alt(pm, v):
+    return enc.res(pm.adsb.altitude(hx(v)), 25000)
+
+
+@reg("adsb.altitude05")
+def _a_alt05(pm, v):
+    return enc.res(pm.adsb.altitude05(hx(v)), 25000)
+
+
+@reg("common.squawk")
+def _c_sq(pm, v):
+    return enc.res(pm.common.squawk(_bits13(v)))
+
+
+@reg("common.idcode")
+def _c_id(pm, v):
+    return enc.res(pm.common.idcode(hx(v)))
+
+
+@reg("surv.identity")
+def _s_id(pm, v):
+    return enc.res(pm.surv.identity(hx(v)))
+
+
+@reg("adsb.emergency_squawk")
+def _a_esq(pm, v):
+    return enc.res(pm.adsb.emergency_squawk(hx(v)))
+
+
+for _n in ("fs", "dr", "um"):
+    def _mk(n):
+        def f(pm, v):
+            return enc.res(getattr(pm.surv, n)(hx(v)))
+
+        def g(pm, v):
+            from pyModeS import py_common
+            return enc.res(getattr(py_common, n)(hx(v)))
+        return f, g
+    _f, _g = _mk(_n)
+    CALLS["surv." + _n] = _f
+    CALLS["common." + _n] = _g
+
+
+@reg("allcall.capability")
+def _ac_cap(pm, v):
+    return enc.res(pm.allcall.capability(hx(v)))
+
+
+@reg("allcall.interrogator")
+def _ac_int(pm, v):
+    return enc.res(pm.allcall.interrogator(hx(v)))
